@@ -127,7 +127,8 @@ def gen_text(rng):
     core = rng.choice(["40001", "40P01", "HYT00", "HYT01", "08S01", "08001", "08", "28000", "28P01", "42000", "42P01", "42S02", "23505",
                        "ABCDE", "abcde", "4000", "400011", "0800A", "2800", "", "401", "٤٠٠٠١", "４０００１", "HYT0é"])
     wrap = rng.choice(["{}", "[{}]", "[{}] boom", "error {} here", "x{}", "{}x", "_{}", "{}_", "({})", "[{}", "{}]", "[[{}]]",
-                       "é{}", "{}é", " {} ", "ERR:{};", "[{}][42000]", "{} 40001", "no code", "[{}]x", "SQLSTATE[{}]"])
+                       "é{}", "{}é", " {} ", "ERR:{};", "[{}][42000]", "{} 40001", "no code", "[{}]x", "SQLSTATE[{}]",
+                       "ERROR [{}] deadlock victim", "wrote 42000 rows ({})", "STATE [{}] after 40001 retries"])
     return wrap.format(core)
 
 
@@ -147,6 +148,34 @@ def exhaustive_ints():
             yield {"name": "Weird", "base": "plain", "attrs": {a: {"t": "int", "v": str(z)}}, "args": []}
     for z in range(90, 610):
         yield {"name": "Weird", "base": "plain", "attrs": {}, "args": [{"t": "str", "v": "x"}, {"t": "int", "v": str(z)}]}
+    # `status or code`: every falsy shape of status next to a mapped (or unmapped) integer code
+    falsy = [{"t": "int", "v": "0"}, {"t": "bool", "v": False}, {"t": "str", "v": ""}, {"t": "bytes", "v": ""}, {"t": "list", "n": 0},
+             {"t": "tuple", "n": 0}, {"t": "dict", "n": 0}, {"t": "float", "v": "0.0"}, {"t": "float", "v": "-0.0"}, {"t": "none"}]
+    for st in falsy:
+        for z in (401, 403, 400, 404, 422, 409, 408, 429, 500, 503, 599, 600, 200):
+            yield {"name": "Weird", "base": "plain", "attrs": {"status": st, "code": {"t": "int", "v": str(z)}}, "args": []}
+
+
+def truthy_spec(v):
+    if v is None:
+        return False
+    t = v["t"]
+    if t == "none":
+        return False
+    if t == "bool":
+        return bool(v["v"])
+    if t == "int":
+        return int(v["v"]) != 0
+    if t == "float":
+        f = float(v["v"])
+        return f != 0.0        # NaN != 0.0 is True: NaN is truthy
+    if t in ("str", "bytes"):
+        return len(v["v"]) > 0
+    if t in ("list", "tuple"):
+        return (len(v["items"]) if "items" in v else v["n"]) > 0
+    if t == "dict":
+        return v["n"] > 0
+    return True
 
 
 def oracle(spec, o):
@@ -168,6 +197,26 @@ def oracle(spec, o):
             for name in ("default", "strict"):
                 if o[name] != want:
                     return f"{name}_classifier: status {z} must map to {want} regardless of the type name, got {o[name]}"
+    # `err.status or err.code`: a falsy status (None, 0, False, "", empty container) lets a mapped integer code decide
+    cd = spec["attrs"].get("code")
+    if marker is None and not truthy_spec(st) and cd is not None and cd["t"] == "int":
+        z = int(cd["v"])
+        want = {401: "AUTH", 403: "PERMISSION", 400: "PERMANENT", 404: "PERMANENT", 422: "PERMANENT", 409: "CONCURRENCY",
+                408: "TRANSIENT", 429: "RATE_LIMIT"}.get(z, "SERVER_ERROR" if 500 <= z < 600 else None)
+        if want is not None:
+            for name in ("default", "strict"):
+                if o[name] != want:
+                    return (f"{name}_classifier: status is {st and st.get('v', st['t'])!r} (falsy) and code is {z}: expected {want} "
+                            f"(`status or code`), got {o[name]}")
+    # pyodbc: the SQLSTATE is the bracketed five-character token of the first string argument
+    if "sqlstate" not in spec["attrs"] and len(spec["args"]) == 1 and spec["args"][0]["t"] == "str":
+        m = re.fullmatch(r"[^\[\]]*\[(40001|40P01|HYT00|HYT01|08S01|28000|28P01|42000|42P01)\][^\[\]]*", spec["args"][0]["v"])
+        if m:
+            code = m.group(1)
+            want = ("CONCURRENCY" if code in ("40001", "40P01") else "TRANSIENT" if code in ("HYT00", "HYT01", "08S01") else
+                    "AUTH" if code.startswith("28") else "PERMANENT")
+            if o["pyodbc"] != want:
+                return f"pyodbc_classifier: message {spec['args'][0]['v']!r} carries [{code}]: expected {want}, got {o['pyodbc']}"
     if st is not None and st["t"] == "int":
         # http_classifier looks at the status first (before marker types): the documented HTTP table, everything else UNKNOWN
         z = int(st["v"])
